@@ -22,7 +22,7 @@ open Occa.CacheKeyBase Occa.CacheKey
 
 /-- parameters: those of the key construction plus the cache directory of a key, the include
     scanner and the fuel of the include expansion -/
-structure DEnv (κ δ : Type) extends Env κ where
+structure DEnv (κ σ δ : Type) extends Env κ σ where
   /-- io::hashDir(hash): the directory name is hash.getString() -/
   dir : κ → δ
   /-- the (resolved) files named by the #include lines of a text, in order -/
@@ -42,7 +42,7 @@ structure Entry (κ β : Type) where
 
 abbrev Cache (κ δ β : Type) := List (δ × Entry κ β)
 
-variable {κ δ β : Type} [DecidableEq κ] [DecidableEq δ]
+variable {κ σ δ β : Type} [DecidableEq κ] [DecidableEq δ]
 
 /-- the sequence of (file, text) the preprocessor pushes while expanding the given #include
     lines; `none`: a file does not exist (error under strict headers) or the fuel ran out -/
@@ -58,25 +58,25 @@ def expand (incl : String → List String) (fs : FS) : Nat → List String → O
       | _, _ => Option.none
 
 /-- setSourceMetadata: dependencyHashes[file] = hashFile(file) for every file pushed -/
-def depsOf (e : DEnv κ δ) (x : List (String × String)) : List (String × κ) :=
-  mkMap (x.map fun pt => (pt.1, e.H pt.2))
+def depsOf (e : DEnv κ σ δ) (x : List (String × String)) : List (String × κ) :=
+  mkMap (x.map fun pt => (pt.1, e.H (e.raw pt.2)))
 
 /-- the loop over the recorded dependencies in applyDependencyHash:
     (file ↦ current hash of the recorded files that still exist, foundDependencyChanges) -/
-def scanDeps (e : DEnv κ δ) (fs : FS) : List (String × κ) → List (String × κ) × Bool
+def scanDeps (e : DEnv κ σ δ) (fs : FS) : List (String × κ) → List (String × κ) × Bool
   | [] => ([], false)
   | (p, h) :: t =>
     let r := scanDeps e fs t
     match fs p with
-    | some txt => ((p, e.H txt) :: r.1, r.2 || decide (e.H txt ≠ h))
+    | some txt => ((p, e.H (e.raw txt)) :: r.1, r.2 || decide (e.H (e.raw txt) ≠ h))
     | Option.none => (r.1, true)
 
 /-- `nextKey["hash"] = currentHash.getFullString(); nextKey["dependencies"] = currentDependencies;
     currentHash = occa::hash(nextKey)` -/
-def nextKey (e : DEnv κ δ) (K : κ) (cur : List (String × κ)) : κ :=
-  e.H (e.enc (mkObj [(Gen.chainHashLabel, J.str (render e.toEnv Gen.chainRender K)),
+def nextKey (e : DEnv κ σ δ) (K : κ) (cur : List (String × κ)) : κ :=
+  e.H (e.enc (mkObj [(Gen.chainHashLabel, render e.toEnv Gen.chainRender K),
                      (Gen.chainDepsLabel,
-                      J.obj (mkMap (cur.map fun ph => (ph.1, J.str (render e.toEnv Gen.chainRender ph.2)))))]))
+                      J.obj (mkMap (cur.map fun ph => (ph.1, render e.toEnv Gen.chainRender ph.2))))]))
 
 inductive Res (κ : Type)
   | found (k : κ)        -- the key to build under / load from
@@ -85,7 +85,7 @@ inductive Res (κ : Type)
 deriving Repr, DecidableEq
 
 /-- device::applyDependencyHash, the `while (true)` loop; `vis` is visitedDirs -/
-def resolve (e : DEnv κ δ) (fs : FS) (cache : Cache κ δ β) : Nat → List δ → κ → Res κ
+def resolve (e : DEnv κ σ δ) (fs : FS) (cache : Cache κ δ β) : Nat → List δ → κ → Res κ
   | 0, _, _ => .outOfFuel
   | n + 1, vis, K =>
     match cache.lookup (e.dir K) with
@@ -104,7 +104,7 @@ inductive Outcome (β : Type)
 deriving Repr
 
 /-- device::buildKernel for an OKL kernel -/
-def build (e : DEnv κ δ) (compile : String × List (Option J) → List (String × String) → β)
+def build (e : DEnv κ σ δ) (compile : String × List (Option J) → List (String × String) → β)
     (fs : FS) (cache : Cache κ δ β) (c : Config) : Cache κ δ β × Outcome β × Option κ :=
   match resolve e fs cache (cache.length + 1) [] (baseKey e.toEnv c) with
   | .found K =>
@@ -130,7 +130,7 @@ structure State (κ δ β : Type) where
   fs : FS
   cache : Cache κ δ β
 
-def step (e : DEnv κ δ) (compile : String × List (Option J) → List (String × String) → β)
+def step (e : DEnv κ σ δ) (compile : String × List (Option J) → List (String × String) → β)
     (s : State κ δ β) : Op → State κ δ β × Option (Outcome β)
   | .write p t => ({ s with fs := fun q => if q = p then some t else s.fs q }, Option.none)
   | .remove p => ({ s with fs := fun q => if q = p then Option.none else s.fs q }, Option.none)
@@ -138,7 +138,7 @@ def step (e : DEnv κ δ) (compile : String × List (Option J) → List (String 
     let r := build e compile s.fs s.cache c
     ({ s with cache := r.1 }, some r.2.1)
 
-def run (e : DEnv κ δ) (compile : String × List (Option J) → List (String × String) → β)
+def run (e : DEnv κ σ δ) (compile : String × List (Option J) → List (String × String) → β)
     (s : State κ δ β) : List Op → State κ δ β
   | [] => s
   | op :: ops => run e compile (step e compile s op).1 ops
